@@ -46,6 +46,9 @@ def level_labels(v, k):
 
 
 def enc_expr(v, enc, k):
+    if v in NUMS and enc == "bs-icpt":
+        # a numerical factor that itself spans the intercept (its columns sum to one)
+        return f"bs({v}, df=4, include_intercept=True)"
     if v in NUMS or enc is None:
         return v
     if enc == "C":
@@ -90,7 +93,7 @@ def evaluate(terms, levels, encs, seed, ordering, cluster_by, reps0=2, prime=Fal
 
     used = sorted({v for t in terms for v in t if v != "1"})
     used_cats = [v for v in used if v in CATS]
-    exprs = {v: enc_expr(v, encs.get(v), levels.get(v, 1)) for v in used}
+    exprs = {v: enc_expr(v, encs.get(v) or ("bs-icpt" if (v in NUMS and seed % 5 == (0 if v == "x" else 1)) else None), levels.get(v, 1)) for v in used}
     tstr = [("1" if t == ["1"] else ":".join(exprs[v] for v in t)) for t in terms]
     # non-zero numeric literal scalings (leading or trailing) change neither rank nor span
     for i_, val, trailing in scales:
